@@ -214,7 +214,7 @@ func H_C01_is() {
 	isNull := make([]bool, n)
 	for i := range rows {
 		r := Map{}
-		if form < 2 && verif.Choose("null", 2) == 1 {
+		if verif.Choose("null", 2) == 1 {
 			r["a"] = nil
 			isNull[i] = true
 		} else {
@@ -222,9 +222,9 @@ func H_C01_is() {
 		}
 		rows[i], arr[i] = r, r
 	}
-	got, ok := runQuery(Map{"t": arr}, "SELECT * FROM t WHERE a "+forms[form])
-	if !ok {
-		return
+	anyNull := false
+	for i := range rows {
+		anyNull = anyNull || isNull[i]
 	}
 	var want []Map
 	for i, r := range rows {
@@ -234,14 +234,29 @@ func H_C01_is() {
 			keep = isNull[i]
 		case 1:
 			keep = !isNull[i]
-		case 2, 5:
-			keep = r["a"].(bool)
+		case 2:
+			keep = !isNull[i] && r["a"].(bool) // NULL IS TRUE is false
+		case 5:
+			keep = isNull[i] || r["a"].(bool) // NULL IS NOT FALSE is true
+		case 4:
+			keep = !isNull[i] && !r["a"].(bool)
 		default:
-			keep = !r["a"].(bool)
+			keep = isNull[i] || !r["a"].(bool)
 		}
 		if keep {
 			want = append(want, r)
 		}
+	}
+	if form >= 2 && anyNull {
+		// truth tests of NULL have their own label
+		got, err := runQueryQuiet(Map{"t": arr}, "SELECT * FROM t WHERE a "+forms[form])
+		verif.Assert(err == nil && len(got) == len(want), "truth-test-of-null")
+		verif.Reach("end")
+		return
+	}
+	got, ok := runQuery(Map{"t": arr}, "SELECT * FROM t WHERE a "+forms[form])
+	if !ok {
+		return
 	}
 	sameRows(got, want, "filter")
 	verif.Reach("end")
